@@ -176,7 +176,14 @@ CLAIMS.update({
          "success); a read that answers ok passes the integrity check; a writer that never reaches the index phase leaves "
          "the index untouched; every call stays inside the cache. Props/C13x (Lemmas/CrashRefine): a keyed write under ANY "
          "fault plan leaves a healthy cache in an admissible abstract state (old / new / content published only), leaves "
-         "every other key and address alone, and any later operation sequence answers as the abstract map says. Tie: strace errno injection into every syscall class of "
+         "every other key and address alone, and any later operation sequence answers as the abstract map says. TRUTHFUL SUCCESS "
+         "(Lemmas/FaultStrict): an operation every one of whose calls turns an error answer into a non-ok result is `Strict`, "
+         "and for a strict operation an ok result under ANY fault plan means no fault fired - result, filesystem and trace "
+         "are the healthy run's (fault_ok_is_healthy); clear is strict, so clear answering ok leaves a healthy, tidy, EMPTY "
+         "cache (clear_ok_truthful - the negation was defect F26 in the real code); remove_hash and index insertion with an "
+         "explicit time are strict; with the clock's time exactly one error is tolerated, a failing clock read, which equals "
+         "a clock reading 0 (delete_ok_clock); lookups and the writers are proved NOT strict (a missing bucket reads as empty; "
+         "a failed rename over existing content is fine) - for those fault_success_is_truthful says what ok means. Tie: strace errno injection into every syscall class of "
          "write/read/metadata/copy/remove/list with result, post-state, retry and other-entry monitors.",
     note=TB + "retry-succeeds and no-panic are judged by the injection leg (impl-only monitor), not proved; the model's "
          "fault granularity is one model call = a group of syscalls.",
